@@ -111,6 +111,9 @@ async fn run_once(case: &SubCase, drop_at: Option<usize>, obs: &mut Obs) {
 	if n_unsub_false > 0 {
 		classes.insert("unsubscribe-answered-false");
 	}
+	if case.lowlevel {
+		classes.insert("low-level-ws-connect");
+	}
 	for c in classes {
 		obs.class(c);
 	}
@@ -130,13 +133,13 @@ impl SubCheck for Bookkeeping {
 	}
 	fn strategy(&self, tier: Tier) -> BoxedStrategy<SubCase> {
 		let max = tier.pick(16usize, 30);
-		(1u8..3, 0u32..4, any::<bool>(), proptest::collection::vec(arb_step(false), 1..max), proptest::bool::weighted(0.15), 1usize..3)
-			.prop_map(|(conns, cap, string_ids, mut steps, sweep_drop, pre)| {
+		(1u8..3, 0u32..4, any::<bool>(), proptest::collection::vec(arb_step(false), 1..max), proptest::bool::weighted(0.15), 1usize..3, proptest::bool::weighted(0.25))
+			.prop_map(|(conns, cap, string_ids, mut steps, sweep_drop, pre, lowlevel)| {
 				for _ in 0..pre {
 					steps.insert(0, H::Act { inst: 0, cmd: Cmd::Accept });
 					steps.insert(0, H::Subscribe { conn: 0, b: false });
 				}
-				SubCase { conns, cap, buf: 1024, string_ids, steps, sweep_drop }
+				SubCase { conns, cap, buf: 1024, string_ids, steps, sweep_drop, lowlevel }
 			})
 			.boxed()
 	}
